@@ -252,7 +252,10 @@ def k5_queries(num, tier, only=None):
                     else:
                         rlens = [2] if cont in heavy else [2, 3]
                     for rlen in rlens:
-                        combos.append((n, rm, rlen))
+                        if cont == 'lfuda' and rm == 'insert_range' and tier == 'quick':
+                            combos.append((1, rm, 1))  # measured: the capacity-2 query gets no verdict within the quick limit
+                        else:
+                            combos.append((n, rm, rlen))
             # two-element range inserts of the heavier containers at capacity 1 (the second element evicts / follows the first):
             # affordable, and enough to see e.g. a TTL or an allow mode taken from the first element only
             if cont in heavy and cont != 'lfuda' and tier == 'quick':
